@@ -110,6 +110,106 @@ def gen_ports(rng):
     return nslots, ops
 
 
+def gen_fds(rng):
+    """every explicit way of closing a descriptor, followed by reuse of its number and collections: filenos from open /
+    open-pipe / duplicate-file-descriptor, input and output ports over them (shared, counted), close-port /
+    close-input-port / close-output-port, close-file-descriptor on the fileno object, duplicate-file-descriptor-to /
+    renumber-file-descriptor, drops and collections; after a close the next opens reuse the number (lowest free), and the
+    new owner must survive every later collection.  Operations outside the model's domain (on a fileno that is already
+    closed) are removed afterwards by legalise()."""
+    nslots = 8
+    ops = []
+    pipes = []
+    s = lambda: rng.randrange(nslots)
+    for _ in range(rng.randrange(8, 36)):
+        r = rng.random()
+        if r < 0.12:
+            ops.append("F,%d" % s())
+        elif r < 0.24:
+            i, j = rng.sample(range(nslots), 2)
+            ops.append("Q,%d,%d" % (i, j))
+            if rng.random() < 0.5:        # ports on both ends, then talk through the pipe
+                a, b = rng.sample([x for x in range(nslots) if x not in (i, j)], 2)
+                ops += ["P,%d,%d" % (a, i), "W,%d,%d" % (b, j), "Z,%d,%d" % (a, b)]
+                if rng.random() < 0.5:
+                    ops += ["D,%d" % i, "D,%d" % j]
+                pipes.append((a, b))
+        elif r < 0.34:
+            ops.append("%s,%d,%d" % (rng.choice("PW"), s(), s()))
+        elif r < 0.50:
+            ops.append("Y,%d" % s())
+        elif r < 0.60:
+            ops.append("%s,%d" % (rng.choice(["X", "XI", "XO"]), s()))
+        elif r < 0.66:
+            ops.append("U,%d,%d" % (s(), s()))
+        elif r < 0.70:
+            ops.append("%s,%d,%d" % (rng.choice("TR"), s(), s()))
+        elif r < 0.84:
+            ops.append("D,%d" % s())
+        elif r < 0.88:
+            ops.append("O,%d" % s())
+        elif r < 0.92 and pipes:
+            ops.append("Z,%d,%d" % rng.choice(pipes))
+        else:
+            ops.append("G")
+    ops.append("G")
+    for a, b in pipes:
+        ops.append("Z,%d,%d" % (a, b))
+    ops += ["D,%d" % i for i in range(nslots) if rng.random() < 0.7]
+    ops.append("G")
+    return nslots, ops
+
+
+def gen_fd_scenarios(rng):
+    """scripted: a descriptor closed explicitly in every way, its number reused by a pipe with ports on both ends, the old
+    owner dropped, collections, and the pipe must still carry data"""
+    hs = []
+    closers = [["Y,0", "Y,1"],                                   # close-file-descriptor on the fileno objects
+               ["P,2,0", "W,3,1", "X,2", "XO,3"],                # ports over them closed: count -> 0 closes the fileno
+               ["P,2,0", "P,3,0", "W,4,1", "XI,2", "Y,0", "X,4"],  # shared fileno closed by hand under a second port
+               ["U,2,0", "Y,0", "Y,2", "Y,1"],                   # a duplicate, all closed by hand
+               ["P,2,0", "W,3,1", "Y,0", "Y,1", "X,2", "X,3"],   # closed by hand under open ports, the ports closed afterwards
+               ["T,0,1", "Y,0", "Y,1"],                          # dup2 over the other end, both closed by hand
+               ["R,0,1", "Y,1", "Y,0"]]
+    # (before the number is reused, after it has been reused)
+    closers = [(c, []) for c in closers] + [
+        (["P,2,0", "W,3,1", "Y,0", "Y,1"], ["X,2", "XO,3"]),     # closed by hand under open ports; the ports are closed after the reuse
+        (["P,2,0", "W,3,1", "Y,0", "Y,1"], ["D,2", "D,3", "G"]),  # ... or dropped and finalised after the reuse
+        (["P,2,0", "P,3,0", "X,2", "Y,0", "Y,1"], ["XI,3"])]
+    for c, late in closers:
+        for drop_first in (False, True):
+            for gcs in (1, 3):
+                ops = ["Q,0,1"] + c
+                drops = ["D,%d" % i for i in range(5)] if not late else ["D,0", "D,1"]
+                if drop_first:
+                    ops += drops
+                ops += ["Q,5,6", "P,7,5", "W,8,6", "Z,7,8"] + late
+                if not drop_first:
+                    ops += drops
+                ops += ["G", "Z,7,8"] * gcs
+                ops += ["D,5", "D,6", "G", "Z,7,8", "X,7", "G", "D,8", "G"]
+                hs.append((9, ops, "fdscript"))
+    return hs
+
+
+def legalise(ctx, exe, hists, rounds=12):
+    """remove the operations the model places outside its domain (DOMAIN k: operation k works on the number of a fileno
+    object that is already closed), until the model accepts the history"""
+    hists = list(hists)
+    for _ in range(rounds):
+        reqs = ["hist %d %d %s" % (h[0], 20000, ";".join(h[1])) for h in hists]
+        outs = ctx.run_model(exe, reqs)
+        again = False
+        for i, o in enumerate(outs):
+            if o.startswith("DOMAIN "):
+                k = int(o.split()[1])
+                hists[i] = (hists[i][0], hists[i][1][:k] + hists[i][1][k + 1:]) + tuple(hists[i][2:])
+                again = True
+        if not again:
+            break
+    return hists
+
+
 def gen_histories(rng, n):
     hs = []
     for i in range(n):
@@ -121,28 +221,195 @@ def gen_histories(rng, n):
             k = rng.randrange(1, 7)
             ns, ops = gen_chain(rng, k, rng.random() < 0.6)
             hs.append((ns, ops, "chain%d" % k))
-        elif r < 0.75:
+        elif r < 0.72:
             ns, ops = gen_selfref(rng)
             hs.append((ns, ops, "selfref"))
-        else:
+        elif r < 0.86:
             ns, ops = gen_ports(rng)
             hs.append((ns, ops, "ports"))
+        else:
+            ns, ops = gen_fds(rng)
+            hs.append((ns, ops, "fds"))
     return hs
+
+
+# ------------------------------------------------------------------------------------------------ address layouts
+def layout_objects(n, ms):
+    """objects of an ephemeron chain of length n: keys K0..Kn, ephemerons E0..E(n-1) (Ej: key Kj, value Vj), and the
+    ordinary objects through which Vj reaches K(j+1): pairs P(j,1)..P(j,ms[j]) (P(j,1) holds K(j+1), P(j,t) holds
+    P(j,t-1); Vj = P(j,ms[j]), or K(j+1) itself when ms[j] = 0).  Returns (names, deps: name -> names created before)."""
+    names, deps = [], {}
+    for j in range(n + 1):
+        names.append("K%d" % j)
+        deps["K%d" % j] = []
+    for j in range(n):
+        prev = "K%d" % (j + 1)
+        for t in range(1, ms[j] + 1):
+            nm = "P%d_%d" % (j, t)
+            names.append(nm)
+            deps[nm] = [prev]
+            prev = nm
+        names.append("E%d" % j)
+        deps["E%d" % j] = ["K%d" % j, prev]
+    return names, deps
+
+
+def value_of(j, ms):
+    return "P%d_%d" % (j, ms[j]) if ms[j] > 0 else "K%d" % (j + 1)
+
+
+def gen_layout(rng, n, ms, order, retain=(0,)):
+    """a history that builds the chain with its objects at the relative ADDRESSES given by `order` (a permutation of
+    layout_objects' names, lowest address first), whatever the creation order has to be: first one placeholder per
+    object is allocated in address order; then, in a random creation order compatible with the dependencies, the
+    placeholder of the next object is dropped and collected and the object is created into the hole (first fit: the
+    hole is the lowest free chunk).  Then every key except those in `retain` and every pair is dropped: the rest of
+    the chain is alive only through ephemeron values; collect; drop the retained keys; collect.
+    Returns (nslots, ops, expected: name -> allocation id)."""
+    names, deps = layout_objects(n, ms)
+    N = len(names)
+    idx = {nm: i for i, nm in enumerate(names)}
+    ops = []
+    for nm in order:
+        ops.append("H,%d" % (N + idx[nm]))
+    ids = {}
+    nid = N
+    done, todo = set(), list(names)
+    while todo:
+        ready = [nm for nm in todo if all(x in done for x in deps[nm])]
+        nm = rng.choice(ready)
+        todo.remove(nm)
+        done.add(nm)
+        ops += ["D,%d" % (N + idx[nm]), "G"]
+        if nm[0] == "K":
+            ops.append("K,%d" % idx[nm])
+        elif nm[0] == "P":
+            tgt = idx[deps[nm][0]]
+            ops.append("C,%d,%d,%d" % (idx[nm], tgt, tgt) if rng.random() < 0.5 else "C,%d,%d,%d" % (idx[nm], 2 * N, tgt))
+        else:
+            ops.append("E,%d,%d,%d" % (idx[nm], idx[deps[nm][0]], idx[deps[nm][1]]))
+        nid += 1
+        ids[nm] = nid
+    for nm in names:
+        if not (nm[0] == "K" and int(nm[1:]) in retain):
+            ops.append("D,%d" % idx[nm])
+    ops.append("G")
+    if rng.random() < 0.3:
+        ops.append("G")
+    for j in retain:
+        ops.append("D,%d" % idx["K%d" % j])
+    ops.append("G")
+    return 2 * N + 1, ops, ids
+
+
+QUAD_PERMS = None
+
+
+def gen_layouts(rng, thorough):
+    """the layout family: for chains of length 2 every relative order of {E0, V0, E1, K1} (24 orders; 6 when the value
+    IS the next key) with values reaching the next key directly, through 1 and through 3 ordinary objects, the other
+    objects placed at random; plus random address orders of chains of length 3-5"""
+    import itertools
+    hs = []
+    reps = 1 if not thorough else 12
+    for _ in range(reps):
+        for m0 in (0, 1, 3):
+            ms = [m0, rng.choice([0, 1, 2])]
+            quad = ["E0", value_of(0, ms), "E1", "K1"]
+            quad = list(dict.fromkeys(quad))
+            names, _ = layout_objects(2, ms)
+            others = [x for x in names if x not in quad]
+            for perm in itertools.permutations(quad):
+                order = list(perm)
+                for x in others:
+                    order.insert(rng.randrange(len(order) + 1), x)
+                hs.append(_layout_hist(rng, 2, ms, order))
+    for _ in range(40 if not thorough else 1500):
+        n = rng.randrange(3, 6)
+        ms = [rng.choice([0, 0, 1, 2, 3]) for _ in range(n)]
+        names, _ = layout_objects(n, ms)
+        order = list(names)
+        r = rng.random()
+        if r < 0.35:            # ephemerons by decreasing chain position below everything else: the worst case for a scan by address
+            eph = ["E%d" % j for j in reversed(range(n))]
+            rest = [x for x in names if x[0] != "E"]
+            rng.shuffle(rest)
+            order = eph + rest
+        else:
+            rng.shuffle(order)
+        hs.append(_layout_hist(rng, n, ms, order))
+    return hs
+
+
+def _layout_hist(rng, n, ms, order):
+    retain = (0,) if rng.random() < 0.7 else tuple(sorted(rng.sample(range(n + 1), rng.randrange(1, 3))))
+    ns, ops, ids = gen_layout(rng, n, ms, order, retain)
+    return (ns, ops, "layout%d" % n, dict(order=order, ids=ids, n=n, ms=ms))
+
+
+def layout_achieved(h, addrs):
+    """the address order the implementation really gave the named objects (lowest first)"""
+    ids = h[3]["ids"]
+    if addrs is None or any(i not in addrs for i in ids.values()):
+        return None
+    return sorted(ids, key=lambda nm: addrs[ids[nm]])
+
+
+def quad_class(order, j, ms):
+    """relative address order of the four objects the ephemeron scan's re-run condition depends on: ephemeron E, its
+    value V, the dependent ephemeron E' whose key K' is reached from V (V = K' when the value is the key itself)"""
+    roles = {"E%d" % (j + 1): "E'", "K%d" % (j + 1): "K'"}
+    roles.setdefault(value_of(j, ms), "V")
+    roles["E%d" % j] = "E"
+    pos = {nm: order.index(nm) for nm in roles}
+    return (len(roles), tuple(roles[nm] for nm in sorted(roles, key=lambda nm: pos[nm])))
+
+
+def layout_family(ctx, exe, d, thorough):
+    """K-outer on the C embedding (bare context: only the history allocates), with the achieved addresses checked"""
+    emb = B.cc_embed(d, os.path.join(HERE, "..", "harness", "embed_c16.c"), os.path.join(d, "embed_c16"))
+    lay = gen_layouts(ctx.rng, thorough)
+    addrs = {}
+    outer(ctx, exe, d, "embed", lay, cmd=[emb], addrs=addrs)
+    hit, classes = 0, set()
+    for i, h in enumerate(lay):
+        got = layout_achieved(h, addrs.get(i))
+        if got is None:
+            continue
+        if got == h[3]["order"]:
+            hit += 1
+        for j in range(h[3]["n"] - 1):
+            classes.add(quad_class(got, j, h[3]["ms"]))
+    n4 = len([c for c in classes if c[0] == 4])
+    n3 = len([c for c in classes if c[0] == 3])
+    ctx.cov["layout_histories"] = len(lay)
+    ctx.cov["layout_address_order_as_requested"] = hit
+    ctx.cov["layout_quad_orders_achieved"] = "%d/24 orders of (E,V,E',K'), %d/6 orders of (E,V=K',E')" % (n4, n3)
+    ctx.note("layout family: %d histories on the bare-context embedding; requested address order achieved in %d; achieved relative "
+             "orders of (ephemeron, value, dependent ephemeron, its key): %d of 24 (+ %d of 6 with value = key), read from the "
+             "addresses the harness reports" % (len(lay), hit, n4, n3))
+    if n4 < 24 or n3 < 6:
+        ctx.broken("layout-generator:C16", "the generator no longer reaches every relative address order of (E, V, E', K'): %d/24, %d/6 "
+                   "(the allocator's placement changed?)" % (n4, n3))
+    return emb, lay, addrs
 
 
 def hist_line(h):
     return "%d %s" % (h[0], ";".join(h[1]))
 
 
-def run_impl(d, hists, timeout=900, extra_env=None, pre=None):
-    """returns list (per history) of observation lists, or a string describing a crash for the history that died"""
+def run_impl(d, hists, timeout=900, extra_env=None, pre=None, cmd=None, addrs=None):
+    """returns list (per history) of observation lists, or a string describing a crash for the history that died.
+    cmd: the interpreter of the history language (default: chibi-scheme harness/c16_hist.scm; the layout family uses
+    the C embedding harness/embed_c16.c); addrs: dict filled with history index -> {id: (heap, offset)} from its 'A' lines"""
     res = [None] * len(hists)
     start = 0
     while start < len(hists):
         inp = "\n".join(hist_line(h) for h in hists[start:]) + "\n"
         try:
-            r = subprocess.run([os.path.join(d, "chibi-scheme"), HIST_SCM], input=inp, capture_output=True, text=True,
-                               timeout=timeout, env=B.chibi_env(d, extra_env), preexec_fn=pre)
+            r = subprocess.run(cmd or [os.path.join(d, "chibi-scheme"), HIST_SCM], input=inp, capture_output=True, text=True,
+                               timeout=timeout, env=B.chibi_env(d, extra_env), preexec_fn=pre,
+                               restore_signals=False)      # SIGPIPE stays ignored: writing to a pipe whose read end is closed is an error, not a death
             out, rc, err = r.stdout, r.returncode, r.stderr
         except subprocess.TimeoutExpired as e:
             out = e.stdout.decode() if isinstance(e.stdout, bytes) else (e.stdout or "")
@@ -154,6 +421,10 @@ def run_impl(d, hists, timeout=900, extra_env=None, pre=None):
                 _, n, obs = (line.split(" ", 2) + [""])[:3]
                 res[start + int(n)] = obs.split("/") if obs else []
                 done = int(n) + 1
+            elif line.startswith("A ") and addrs is not None:
+                _, n, body = (line.split(" ", 2) + [""])[:3]
+                addrs[start + int(n)] = {int(e.split(":")[0], 16): (int(e.split(":")[1]), int(e.split(":")[2]))
+                                         for e in body.split(",") if e}
             elif line == "DONE":
                 finished = True
         if finished:
@@ -199,6 +470,17 @@ def _split_kv(s):
 def classify(mo, io):
     """compare one model observation with one implementation observation; returns list of (sig, text)"""
     bad = []
+    if mo.startswith("Z") or io.startswith("Z"):
+        # data written through the output port must arrive at the input port when the model says both descriptors are open
+        if mo == "Zoo" and io not in ("Zok", "Zskip"):
+            bad.append(("fd:new-owner-broken", "both ends of the pipe are open in the model, the implementation answers %s" % io))
+        return bad
+    mown = dict(e.split(":") for e in (re.search(r"\|own=([^|]*)", mo).group(1).split(",") if "|own=" in mo else []) if e)
+    iown = dict(e.split(":") for e in (re.search(r"\|own=([^|]*)", io).group(1).split(",") if "|own=" in io else []) if e)
+    for slot_, st_ in mown.items():
+        if st_ == "o" and iown.get(slot_, "ok") != "ok":
+            bad.append(("fd:number-no-longer-names-owners-file", "slot %s: the owner is open in the model but /proc/self/fd/<its number> "
+                        "no longer names the file it was opened on" % slot_))
     me, mf = split_obs(mo)
     ie, if_ = split_obs(io)
     for name, (mb, mk, mv) in me.items():
@@ -228,7 +510,7 @@ def model_hist(ctx, exe, hists, fuel=20000):
     res = []
     for o in outs:
         if not o.startswith("OK"):
-            res.append(None)
+            res.append(None if not o.startswith("DOMAIN") else "DOMAIN")
         else:
             body = o[3:]
             res.append(body.split("/") if body else [])
@@ -240,7 +522,7 @@ def first_mismatch(mobs, iobs):
         return [("history:crash", iobs)]          # outer() renames it when a forced-gc schedule was active
     if iobs is None:
         return [("history:no-output", "")]
-    if mobs is None:
+    if mobs is None or mobs == "DOMAIN":
         return None
     if len(mobs) != len(iobs):
         return [("history:observation-count", "model %d impl %d" % (len(mobs), len(iobs)))]
@@ -251,9 +533,9 @@ def first_mismatch(mobs, iobs):
     return []
 
 
-def shrink(ctx, exe, d, h, sig, env, budget=40):
+def shrink(ctx, exe, d, h, sig, env, budget=40, cmd=None):
     """drop ops one at a time while the same signature still shows"""
-    ns, ops, kind = h
+    ns, ops, kind = h[0], h[1], h[2]
     i = 0
     while i < len(ops) and budget > 0:
         cand = ops[:i] + ops[i + 1:]
@@ -263,7 +545,7 @@ def shrink(ctx, exe, d, h, sig, env, budget=40):
         budget -= 1
         hh = (ns, cand, kind)
         mo = model_hist(ctx, exe, [hh])[0]
-        io = run_impl(d, [hh], timeout=120, extra_env=env)[0]
+        io = run_impl(d, [hh], timeout=120, extra_env=env, cmd=cmd)[0]
         mm = first_mismatch(mo, io)
         if mm and any(s == ("history:crash" if sig.startswith("history:crash") else sig) for s, _ in mm):
             ops = cand
@@ -272,15 +554,17 @@ def shrink(ctx, exe, d, h, sig, env, budget=40):
     return (ns, ops, kind)
 
 
-def outer(ctx, exe, d, variant, hists, env=None):
+def outer(ctx, exe, d, variant, hists, env=None, cmd=None, addrs=None):
     mobs = model_hist(ctx, exe, hists)
-    iobs = run_impl(d, hists, extra_env=env)
+    iobs = run_impl(d, hists, extra_env=env, cmd=cmd, addrs=addrs)
     reported = set()
     for h, mo, io in zip(hists, mobs, iobs):
         if mo is None:
             ctx.broken("model-history", "the model ran out of fuel on %s" % hist_line(h))
             continue
-        nontriv = any(o.startswith("E") for o in h[1]) or any(o[0] in "OFP" for o in h[1])
+        if mo == "DOMAIN":
+            continue                       # outside the modelled domain (not legalised): not compared
+        nontriv = any(o.startswith("E") for o in h[1]) or any(o[0] in "OFPQWU" for o in h[1])
         ctx.count(1, key=(variant, hist_line(h), str(env)), nontrivial=nontriv)
         ctx.cov["traces_validated_against_impl"] += 1
         mm = first_mismatch(mo, io)
@@ -291,13 +575,14 @@ def outer(ctx, exe, d, variant, hists, env=None):
                 if sig in reported:
                     continue
                 reported.add(sig)
-                hs = shrink(ctx, exe, d, h, sig, env) if not ctx.cov.get("_noshrink") else h
+                hs = shrink(ctx, exe, d, h, sig, env, cmd=cmd) if not ctx.cov.get("_noshrink") else h
                 mo2 = model_hist(ctx, exe, [hs])[0]
-                io2 = run_impl(d, [hs], timeout=120, extra_env=env)[0]
+                io2 = run_impl(d, [hs], timeout=120, extra_env=env, cmd=cmd)[0]
                 envs = " ".join("%s=%s" % kv for kv in (env or {}).items())
+                prog = " ".join(cmd) if cmd else "%s/chibi-scheme %s" % (d, os.path.abspath(HIST_SCM))
                 ctx.violation(sig, input=hist_line(hs), kind=h[2], variant=variant, expected_model=mo2, observed=io2, why=text,
-                              replay="echo '%s' | %s LD_LIBRARY_PATH=%s CHIBI_MODULE_PATH=%s/lib CHIBI_IGNORE_SYSTEM_PATH=1 %s/chibi-scheme %s"
-                                     % (hist_line(hs), envs, d, d, d, os.path.abspath(HIST_SCM)))
+                              replay="echo '%s' | %s LD_LIBRARY_PATH=%s CHIBI_MODULE_PATH=%s/lib CHIBI_IGNORE_SYSTEM_PATH=1 %s"
+                                     % (hist_line(hs), envs, d, d, prog))
     return mobs, iobs
 
 
@@ -395,17 +680,24 @@ def impl_kinds(dump):
     return res
 
 
-def inner(ctx, exe, d, hists, ngc):
+def inner(ctx, exe, d, hists, ngc, cmd=None, label="inner"):
     """two runs: the first learns the gc counts at the history's collections, the second dumps those"""
-    first = run_impl(d, hists, timeout=300)
+    first = run_impl(d, hists, timeout=300, cmd=cmd)
     gcs, must = [], []
     for h, obs in zip(hists, first):
         if isinstance(obs, list):
+            mine = []
             for o in obs:
                 m = re.search(r"\|gc=(\d+)", o)
                 if m and int(m.group(1)) > 0:
-                    (must if h[2] == "ports-shared-fileno" else gcs).append(int(m.group(1)))
-    step = max(1, len(gcs) // ngc)
+                    mine.append(int(m.group(1)))
+            if h[2] == "ports-shared-fileno":
+                must += mine
+            elif h[2].startswith("layout"):
+                must += mine[-3:-1]          # the collections at which the chain is alive only through ephemeron values
+            else:
+                gcs += mine
+    step = max(1, len(gcs) // ngc) if ngc else 1
     wanted = sorted(set(gcs[::step][:ngc] + must))[:60]      # the hook accepts at most 64 collection numbers
     if not wanted:
         ctx.broken("inner-correspondence:C16", "no collection to dump")
@@ -413,7 +705,7 @@ def inner(ctx, exe, d, hists, ngc):
     os.makedirs(B.SCRATCH, exist_ok=True)
     tr = tempfile.NamedTemporaryFile(prefix="c16-trace-", dir=B.SCRATCH, delete=False).name
     try:
-        second = run_impl(d, hists, timeout=600, extra_env=dict(CHIBI_VERIF_TRACE=tr, CHIBI_VERIF_DUMP=",".join(map(str, wanted)), CHIBI_VERIF_DUMP_KINDS="1"))
+        second = run_impl(d, hists, timeout=600, cmd=cmd, extra_env=dict(CHIBI_VERIF_TRACE=tr, CHIBI_VERIF_DUMP=",".join(map(str, wanted)), CHIBI_VERIF_DUMP_KINDS="1"))
         dumps = parse_dumps(tr, set(wanted))
     finally:
         try:
@@ -465,7 +757,7 @@ def inner(ctx, exe, d, hists, ngc):
                 ctx.violation("dump:port-fileno-state", input="collection %d" % g,
                               expected="model: " + "; ".join("%s %s" % (a, mkinds.get(a)) for a in diff),
                               observed="impl: " + "; ".join("%s %s (before the collection %s)" % (a, ik.get(a), prek.get(a)) for a in diff),
-                              replay=_dump_replay(d, hists, g))
+                              replay=_dump_replay(d, hists, g, cmd))
             ret = set(ret.split(",")) if ret != "-" else set()
             mw = {}
             if wk != "-":
@@ -480,7 +772,7 @@ def inner(ctx, exe, d, hists, ngc):
                 if only_m:
                     ctx.violation("dump:live-object-swept", input="collection %d of %s" % (g, hist_line(hists[0])[:200]),
                                   expected="retained (live by the SPEC): %s" % only_m, observed="absent from the post dump",
-                                  replay=_dump_replay(d, hists, g))
+                                  replay=_dump_replay(d, hists, g, cmd))
                 else:
                     ctx.broken("inner-correspondence:C16:%s:retained" % name,
                                "collection %d: implementation keeps %d objects the model frees, e.g. %s" % (g, len(impl_post - ret), only_i))
@@ -489,9 +781,9 @@ def inner(ctx, exe, d, hists, ngc):
                 detail = "; ".join("%s model %s impl %s pre %s" % (a, mw.get(a), impl_weak.get(a),
                                                                    (pre_weak[a][6], pre_weak[a][7], pre_weak[a][4]) if a in pre_weak else None) for a in diff)
                 ctx.violation("dump:weak-object-state", input="collection %d" % g, expected="model (= SPEC by key_broken_iff_unreachable): see why",
-                              observed="see why", why=detail, replay=_dump_replay(d, hists, g))
-    ctx.note("inner: %d collections replayed (%s), %d weak objects and %d port/fileno states compared" % (len(wanted), wanted, nweak_total, nfin_total[0]))
-    if nfin_total[0] == 0:
+                              observed="see why", why=detail, replay=_dump_replay(d, hists, g, cmd))
+    ctx.note("%s: %d collections replayed (%s), %d weak objects and %d port/fileno states compared" % (label, len(wanted), wanted, nweak_total, nfin_total[0]))
+    if nfin_total[0] == 0 and cmd is None:
         ctx.note("inner: the build prints no port/fileno state (fixes/hook-C16-dump-port-state.patch not applied): finaliser effects are tied by the outer histories only")
     if replayed < (len(wanted) + 1) // 2:
         ctx.broken("inner-correspondence:C16", "only %d of the %d requested collections were found complete in the trace" % (replayed, len(wanted)))
@@ -499,9 +791,9 @@ def inner(ctx, exe, d, hists, ngc):
         ctx.broken("inner-correspondence:C16", "no weak object in any dumped collection")
 
 
-def _dump_replay(d, hists, g):
-    return ("printf '%s\\n' | CHIBI_VERIF_TRACE=/dev/stdout CHIBI_VERIF_DUMP=%d CHIBI_VERIF_DUMP_KINDS=1 LD_LIBRARY_PATH=%s CHIBI_MODULE_PATH=%s/lib CHIBI_IGNORE_SYSTEM_PATH=1 %s/chibi-scheme %s"
-            % ("\\n".join(hist_line(h) for h in hists), g, d, d, d, os.path.abspath(HIST_SCM)))
+def _dump_replay(d, hists, g, cmd=None):
+    return ("printf '%s\\n' | CHIBI_VERIF_TRACE=/dev/stdout CHIBI_VERIF_DUMP=%d CHIBI_VERIF_DUMP_KINDS=1 LD_LIBRARY_PATH=%s CHIBI_MODULE_PATH=%s/lib CHIBI_IGNORE_SYSTEM_PATH=1 %s"
+            % ("\\n".join(hist_line(h) for h in hists), g, d, d, " ".join(cmd) if cmd else "%s/chibi-scheme %s" % (d, os.path.abspath(HIST_SCM))))
 
 
 # ------------------------------------------------------------------------------------------------ descriptor loop
@@ -581,12 +873,18 @@ def run(ctx):
                     ns, ops = line.split(" ", 1)
                     corpus.append((int(ns), ops.split(";"), "corpus:" + f))
     n_def, n_asan, n_sched = (160, 40, 30) if not thorough else (8000, 2000, 2000)
-    hists = corpus + gen_histories(rng, n_def)
+    hists = legalise(ctx, exe, corpus + gen_fd_scenarios(rng) + gen_histories(rng, n_def))
     mobs, iobs = outer(ctx, exe, d, "default", hists)
     for h, m, i in list(zip(hists, mobs, iobs))[len(corpus):len(corpus) + 3]:
         ctx.sample(dict(kind="outer", history=hist_line(h), family=h[2], model=m, impl=i))
+    # every relative address order of the objects the ephemeron scan depends on
+    try:
+        emb, lay, lay_addrs = layout_family(ctx, exe, d, thorough)
+    except B.BuildError as e:
+        ctx.broken("build:embed_c16", str(e)[-800:])
+        emb = None
     # sparse forced collections at arbitrary allocation points must not change any observation
-    hs2 = gen_histories(rng, n_sched)
+    hs2 = legalise(ctx, exe, gen_histories(rng, n_sched))
     # Forcing collections can crash the pinned compiler while the driver script itself is being compiled (a context
     # object swept in use: triaged under C02, nothing to do with weak references).  The allocation numbering of the
     # start-up is the same for every input, so a schedule is usable iff the empty history survives it.
@@ -608,8 +906,14 @@ def run(ctx):
     hd.append(gen_selfref(rng) + ("selfref",))
     hd.append((4, "F,0;P,1,0;P,2,0;O,3;G;D,1;D,3;G;X,2;G;D,0;D,2;G".split(";"), "ports-shared-fileno"))
     hd.append(gen_ports(rng) + ("ports",))
-    hd += [(h[0], h[1], h[2]) for h in gen_histories(rng, 4 if not thorough else 30)]
+    hd += [(h[0], h[1], h[2]) for h in legalise(ctx, exe, gen_histories(rng, 4 if not thorough else 30))]
     inner(ctx, exe, d, hd, 12 if not thorough else 80)
+    # the same on the bare-context embedding, at the collections where the address order of the chain matters
+    if emb:
+        k = 28 if not thorough else 30
+        sel = [h for h in lay if h[2] == "layout2"][::max(1, len([h for h in lay if h[2] == "layout2"]) // (k - 8))][:k - 8] \
+            + [h for h in lay if h[2] != "layout2"][:8]
+        inner(ctx, exe, d, sel, 0, cmd=[emb], label="inner (embedding, layout family)")
     # asan: touching a swept value traps
     try:
         da = ctx.build("asan")
@@ -617,7 +921,7 @@ def run(ctx):
         ctx.broken("build:asan", str(e)[-800:])
         da = None
     if da:
-        outer(ctx, exe, da, "asan", corpus + gen_histories(rng, n_asan))
+        outer(ctx, exe, da, "asan", legalise(ctx, exe, corpus + gen_fd_scenarios(rng)[::3] + gen_histories(rng, n_asan)))
         fd_loop(ctx, da, "asan", 2000 if not thorough else 20000)
     fd_loop(ctx, d, "default", 20000)
     ctx.assume("objects outside the heaps (static, printed 'x' in dumps) are treated as immediates; weak keys are heap objects in every history")
